@@ -25,15 +25,18 @@ CONSTANTS Clients, Keyspaces, Valid,   \* Valid \subseteq Keyspaces exist in the
           NHosts,                      \* pools per session
           MaxOps,
           StoreUnderReadLock,          \* legacy switch (pinned tree): the creator keeps the read lock and writes the table under it
-          SelectIgnoresFailure         \* legacy switch (pinned tree): when `connected` and `failed` are both ready the select may
+          SelectIgnoresFailure,        \* legacy switch (pinned tree): when `connected` and `failed` are both ready the select may
                                        \* take `connected` and return the session
+          ReopenForgetsKs,             \* hazard switch: a pooled connection re-opened after a loss does not issue USE again
+          FailKeepsLock                \* hazard switch: the error path of findSession does not release the write lock
 
 VARIABLES ks,        \* c -> current keyspace ("" = none)
           pc,        \* c -> idle | wlock | listen | select | store | reply | fail
           tgt,       \* c -> keyspace of the USE in progress
           news,      \* c -> session created by the USE in progress (or 0)
           boot,      \* c -> the session under construction: [pools (connected so far), failedq, connected] or NoBoot
-          sess,      \* session id -> [ks, attr, ok]   ok: every pool connected
+          sess,      \* session id -> [ks, attr, ok, connks]   ok: every pool connected; connks: the keyspace in force on the
+                     \* session's backend connections (connPool.connect issues USE on every connection it opens)
           table,     \* key <<attr, ks>> -> session id
           lock,      \* [r |-> set of clients holding the read lock, w |-> writer or "none"]
           ops,       \* operations started
@@ -51,7 +54,13 @@ Init == /\ ks = [c \in Clients |-> ""] /\ pc = [c \in Clients |-> "idle"]
         /\ sess = <<>> /\ table = [x \in {} |-> 0]
         /\ lock = [r |-> {}, w |-> "none"] /\ ops = 0 /\ log = <<>> /\ replies = <<>>
 
-NewSession(k, a, ok) == Append(sess, [ks |-> k, attr |-> a, ok |-> ok])
+NewSession(k, a, ok) == Append(sess, [ks |-> k, attr |-> a, ok |-> ok, connks |-> k])
+
+(* a backend connection of session i is lost and re-opened by connPool.stayConnected -> connect *)
+Reopen(i) ==
+    /\ i \in DOMAIN sess
+    /\ sess' = [sess EXCEPT ![i].connks = IF ReopenForgetsKs THEN "" ELSE sess[i].ks]
+    /\ UNCHANGED <<ks, pc, tgt, news, boot, table, lock, ops, log, replies>>
 
 (* client sends USE k: findSession looks the key up under the read lock *)
 UseStart(c, k) ==
@@ -125,7 +134,7 @@ UseReply(c) ==
 UseFail(c) ==
     /\ pc[c] = "fail"
     /\ replies' = <<c, "error", tgt[c]>>
-    /\ lock' = [r |-> lock.r \ {c}, w |-> IF lock.w = c THEN "none" ELSE lock.w]
+    /\ lock' = IF FailKeepsLock THEN lock ELSE [r |-> lock.r \ {c}, w |-> IF lock.w = c THEN "none" ELSE lock.w]
     /\ boot' = [boot EXCEPT ![c] = NoBoot]
     /\ pc' = [pc EXCEPT ![c] = "idle"]
     /\ UNCHANGED <<ks, tgt, news, sess, table, ops, log>>
@@ -135,7 +144,7 @@ Forward(c) ==
     /\ pc[c] = "idle" /\ ops < MaxOps /\ lock.w = "none" /\ lock.r = {}
     /\ ops' = ops + 1
     /\ IF Key(c, ks[c]) \in DOMAIN table
-       THEN /\ LET s == sess[table[Key(c, ks[c])]] IN log' = <<c, ks[c], s.ks, s.attr, s.ok>>
+       THEN /\ LET s == sess[table[Key(c, ks[c])]] IN log' = <<c, ks[c], s.connks, s.attr, s.ok>>
             /\ UNCHANGED <<sess, table>>
        ELSE \* created on demand (the default session of a new version/compression; same steps, always succeeding)
             /\ sess' = NewSession(ks[c], Attr[c], TRUE)
@@ -146,6 +155,7 @@ Forward(c) ==
 Next == \E c \in Clients : \/ \E k \in Keyspaces : UseStart(c, k)
                            \/ TakeWrite(c) \/ Listen(c) \/ BootPool(c) \/ BootDone(c) \/ SelectFailed(c) \/ SelectConnected(c)
                            \/ UseStore(c) \/ UseReply(c) \/ UseFail(c) \/ Forward(c)
+        \/ \E i \in DOMAIN sess : ops < MaxOps /\ Reopen(i)
 Spec == Init /\ [][Next]_vars
 Fair == Spec /\ WF_vars(Next)
 
@@ -163,4 +173,6 @@ Isolation == [][\A c, d \in Clients : (c # d /\ pc'[c] # pc[c]) => ks'[d] = ks[d
 TableWriteExclusive == [][table' # table => (\A c \in Clients : pc[c] = "store" /\ pc'[c] = "reply" => (lock.r \subseteq {c} /\ lock.w \in {c, "none"})) ]_vars
 \* every USE is answered (the locks are released on every path)
 UseAnswered == \A c \in Clients : pc[c] # "idle" ~> pc[c] = "idle"
+\* ... and no lock is left behind when every client is idle
+NoLockLeak == (\A c \in Clients : pc[c] = "idle") => (lock.w = "none" /\ lock.r = {})
 =============================================================================
